@@ -7,6 +7,7 @@ parsed with CPython's regex parser into interval sets (whole Unicode range, no s
 from __future__ import annotations
 
 import ast
+import functools
 import re
 
 from .absdom import parse_regex
@@ -181,6 +182,11 @@ def member_fn(text: str, flags=0):
 
 
 def denotes(text: str, want_intervals, want_neg: bool, flags=0):
+    return _denotes(text, tuple(tuple(x) for x in want_intervals), bool(want_neg), flags)
+
+
+@functools.lru_cache(maxsize=200000)
+def _denotes(text: str, want_intervals, want_neg: bool, flags=0):
     """Does the one-character matcher `text` denote exactly the set (intervals, polarity)?  When the text uses a
     Unicode-aware shorthand (\\d \\s \\w) only ASCII is compared (the property leaves the rest unspecified).
     -> (ok, explanation)"""
